@@ -48,7 +48,10 @@ type stateBuilder struct {
 var envFaultStates = map[string]bool{"oracle_down": true, "price_inactive_unsafe": true, "dutch_disabled": true, "dutch_disabled_lend": true,
 	"english_surplus_close_nomint": true, "english_debt_close_nomint": true, "surplus_collector_empty": true, "lend_collateral_lent_out": true,
 	"lend_full_uopt1": true, "lend_only_stable_debt": true, "oracle_zero_prices": true, "v1_no_auction_params": true,
-	"v1_two_apps_one_unconfigured": true, "debt_price_inactive_two_apps": true, "v1_lend_no_params": true, "two_apps_one_dutch_disabled": true}
+	"v1_two_apps_one_unconfigured": true, "debt_price_inactive_two_apps": true, "v1_lend_no_params": true, "two_apps_one_dutch_disabled": true,
+	"setup_lookup_before_fees_surplus": true, "setup_lookup_before_fees_debt": true, "setup_second_asset_later": true, "setup_lookup_without_mapping": true,
+	"setup_mapping_without_lookup": true, "setup_no_auction_params": true, "setup_no_whitelist": true, "setup_random": true,
+	"surplus_english_off_unsafe": true, "debt_english_off_unsafe": true, "killswitch_unsafe": true}
 
 // advance moves the working context to the header of the next block (height+1, time+dt) without running any hook:
 // the hook cases then run "the begin blocker of the next block" on it.
@@ -271,8 +274,216 @@ func (w *world) v1two(p params, params1, params2 bool) {
 	w.mustBlock(26 * time.Hour)
 }
 
+// oracleRounds: the band fetch cycle is live with window size n and accepted height difference gap (stubbed through the
+// band keeper's setters: no IBC here). Every round (each 20th block) band either answers with a new result - per priced
+// asset a positive rate or 0 according to the asset's schedule: a run of positive rates, a zero-rate outage, positive
+// rates again - or stays silent. Every block of the history is recorded and judged like a plain block.
+func (w *world) oracleRounds(r *sim.Rng, n uint64, gap int64, rounds int) {
+	k := w.App.BandoracleKeeper
+	k.SetFetchPriceMsg(w.Ctx, bandtypes.MsgFetchPriceData{OracleScriptID: 12, SourceChannel: "channel-0", AskCount: 1, MinCount: 1,
+		TwaBatchSize: n, AcceptedHeightDiff: gap, FeeLimit: sdk.NewCoins()})
+	k.SetLastBlockHeight(w.Ctx, 1)
+	k.SetOracleValidationResult(w.Ctx, true)
+	k.SetCheckFlag(w.Ctx, true)
+	k.SetDiscardData(w.Ctx, bandtypes.DiscardData{BlockHeight: -1, DiscardBool: false})
+	var priced []uint64
+	var base []uint64
+	for _, a := range w.App.AssetKeeper.GetAssets(w.Ctx) {
+		if a.IsOraclePriceRequired {
+			priced = append(priced, a.Id)
+			twa, _ := w.App.MarketKeeper.GetTwa(w.Ctx, a.Id)
+			base = append(base, twa.Twa)
+		}
+	}
+	// schedule per asset: positives before the outage, outage length in rounds (0 = never)
+	pos := make([]int, len(priced))
+	out := make([]int, len(priced))
+	for i := range priced {
+		pos[i] = 1 + r.Intn(int(n)+2)
+		out[i] = r.Intn(5)
+	}
+	id := int64(100)
+	for round := 0; round < rounds; round++ {
+		rec := histRec{What: fmt.Sprintf("oracle round %d (window %d, gap %d)", round, n, gap), Oracle: true}
+		if round > 0 && r.Intn(9) == 0 {
+			rec.Silent = true // no new result: band's validation fails, market switches every price off
+		} else {
+			id++
+			rates := make([]uint64, len(priced))
+			for i := range priced {
+				switch {
+				case round < pos[i]:
+					rates[i] = base[i] + uint64(r.Intn(3))*10000
+				case round < pos[i]+out[i]:
+					rates[i] = 0
+					rec.Zero = true
+				default:
+					rates[i] = base[i] - uint64(r.Intn(3))*10000
+					if out[i] > 0 {
+						rec.Rebuild = true
+					}
+				}
+			}
+			if r.Intn(7) == 0 && len(rates) > 2 {
+				rates = rates[:len(rates)-2] // band answered for fewer symbols
+			}
+			k.SetLastFetchPriceID(w.Ctx, bandtypes.OracleRequestID(id))
+			k.SetFetchPriceResult(w.Ctx, bandtypes.OracleRequestID(id), bandtypes.FetchPriceResult{Rates: rates})
+		}
+		w.atHeight(20*(1+w.Height/20) - 1)
+		br := w.block(6 * time.Second)
+		rec.Returned, rec.PanicS = !br.Panic, short(br.Err)
+		w.hist = append(w.hist, rec)
+		if br.Panic {
+			w.note("oracle round %d panicked: %s", round, rec.PanicS)
+		}
+		if r.Intn(3) == 0 {
+			w.mustBlock(6 * time.Second) // ordinary blocks in between
+		}
+	}
+}
+
+func oracleHistory(n uint64, gap int64) func(w *world, p params) []string {
+	return func(w *world, p params) []string {
+		w.twaN = int(n)
+		w.base("0.5")
+		w.lending(p.NBorrows)
+		w.vaults(p.NVaults)
+		w.vaults2(2)
+		w.mustBlock(6 * time.Second)
+		w.oracleRounds(sim.NewRng(int64(p.Drop)+int64(p.Gap)*7+int64(n)*131+gap), n, gap, 14)
+		w.advance(6 * time.Second)
+		return []string{"begin"}
+	}
+}
+
+// setup builds harbor with fee-earning vaults (or none) and the given collector records, in governance's order.
+func (w *world) setup(p params, withVaults bool) {
+	w.base("0.5")
+	w.mintGov()
+	w.lending(p.NBorrows)
+	if withVaults {
+		w.vaults(p.NVaults)
+		w.vaults2(2)
+	}
+}
+
 func stateBuilders() []stateBuilder {
 	return []stateBuilder{
+		{"oracle_history_n1", oracleHistory(1, 30)},
+		{"oracle_history_n2", oracleHistory(2, 50)},
+		{"oracle_history_n3", oracleHistory(3, 30)},
+		{"oracle_history_n4", oracleHistory(4, 70)},
+		{"setup_lookup_before_fees_surplus", func(w *world, p params) []string {
+			// governance registers lookup table and auction mapping before the app has booked a single fee
+			w.setup(p, false)
+			w.collector(true, false, 5000, 1000, 4000)
+			w.advance(6 * time.Second)
+			return []string{"begin"}
+		}},
+		{"setup_lookup_before_fees_debt", func(w *world, p params) []string {
+			w.setup(p, false)
+			w.collector(false, true, 100000000, 50000000, 200000)
+			w.advance(6 * time.Second)
+			return []string{"begin"}
+		}},
+		{"setup_second_asset_later", func(w *world, p params) []string {
+			// fees exist for asset 3; a second asset of the app is registered later and has no net-fee record
+			w.setup(p, true)
+			w.collector(true, false, 5000, 1000, 4000)
+			w.mustBlock(6 * time.Second)
+			w.lookup("harbor", "uasset2", 5000, 1000, 4000)
+			w.mapping("harbor", "uasset2", p.NVaults%2 == 0, p.NVaults%2 == 1)
+			w.lookup("osmovlt", "uasset3", 5000, 1000, 4000)
+			w.mapping("osmovlt", "uasset3", p.NBorrows%2 == 0, p.NBorrows%2 == 1)
+			w.advance(6 * time.Second)
+			return []string{"begin"}
+		}},
+		{"setup_lookup_without_mapping", func(w *world, p params) []string {
+			w.setup(p, true)
+			w.lookup("harbor", "uasset3", 5000, 1000, 4000)
+			w.advance(6 * time.Second)
+			return []string{"begin"}
+		}},
+		{"setup_mapping_without_lookup", func(w *world, p params) []string {
+			w.setup(p, true)
+			w.mapping("harbor", "uasset3", true, false)
+			w.mapping("osmovlt", "uasset3", false, true)
+			w.advance(6 * time.Second)
+			return []string{"begin"}
+		}},
+		{"setup_no_auction_params", func(w *world, p params) []string {
+			// positions become unsafe before the auctionsV2 parameters were ever written
+			w.omit["aucparams"] = true
+			w.unsafe(p)
+			w.advance(6 * time.Second)
+			return []string{"begin"}
+		}},
+		{"setup_no_whitelist", func(w *world, p params) []string {
+			w.omit[[]string{"wl_harbor", "wl_commodo", "wl_osmovlt"}[p.NVaults%3]] = true
+			w.omit["rewards_wl"] = p.NBorrows%2 == 0
+			w.unsafe(p)
+			w.setPrice(w.asset["uasset4"], p.Drop, true)
+			w.advance(6 * time.Second)
+			return []string{"begin"}
+		}},
+		{"setup_random", func(w *world, p params) []string {
+			// seeded combination of present / absent optional records
+			r := sim.NewRng(int64(p.Drop) + int64(p.Gap)*3 + int64(p.Bid))
+			for _, k := range []string{"wl_harbor", "wl_commodo", "wl_osmovlt", "rewards_wl", "aucparams"} {
+				w.omit[k] = r.Intn(4) == 0
+			}
+			w.setup(p, true)
+			for _, app := range []string{"harbor", "osmovlt"} {
+				for _, dn := range []string{"uasset3", "uasset2"} {
+					if app == "osmovlt" && dn == "uasset2" {
+						continue
+					}
+					if r.Intn(2) == 0 {
+						w.lookup(app, dn, 5000, 1000, 4000)
+					}
+					if r.Intn(2) == 0 {
+						sp := r.Intn(2) == 0
+						w.mapping(app, dn, sp, !sp)
+					}
+				}
+			}
+			w.mustBlock(6 * time.Second)
+			w.mustBlock(26 * time.Hour)
+			w.dropPrices(p)
+			w.advance(6 * time.Second)
+			return []string{"begin"}
+		}},
+		{"surplus_english_off_unsafe", func(w *world, p params) []string {
+			// harbor has English auctions switched off but a surplus configuration whose threshold its fees pass: the
+			// surplus/debt starter fails by configuration while vaults and borrows are waiting to be liquidated
+			w.setup(p, true)
+			w.whitelist("harbor", true, false)
+			w.collector(true, false, 5000, 1000, 4000)
+			w.mustBlock(6 * time.Second)
+			w.mustBlock(26 * time.Hour)
+			w.dropPrices(p)
+			w.setPrice(w.asset["uasset4"], p.Drop, true)
+			w.advance(6 * time.Second)
+			return []string{"begin"}
+		}},
+		{"debt_english_off_unsafe", func(w *world, p params) []string {
+			w.setup(p, true)
+			w.whitelist("harbor", true, false)
+			w.collector(false, true, 100000000, 50000000, 200000)
+			w.mustBlock(6 * time.Second)
+			w.mustBlock(26 * time.Hour)
+			w.dropPrices(p)
+			w.advance(6 * time.Second)
+			return []string{"begin"}
+		}},
+		{"killswitch_unsafe", func(w *world, p params) []string {
+			w.unsafe(p)
+			w.setPrice(w.asset["uasset4"], p.Drop, true)
+			w.killSwitch([]string{"harbor", "commodo", "osmovlt"}[p.NVaults%3])
+			w.advance(6 * time.Second)
+			return []string{"begin"}
+		}},
 		{"v1_no_auction_params", func(w *world, p params) []string {
 			// the app is white-listed for V1 liquidation before its auction parameters exist: the auction start, a late inner
 			// step of every vault liquidation, fails by itself
